@@ -394,3 +394,55 @@ var spec = kit.Spec[Case]{
 }
 
 func TestProp(t *testing.T) { kit.All(t, spec) }
+
+// ---------------------------------------------------------------------------
+// boundary grid: the acceptance boundary of rabin-N (the 16-byte rabin window against
+// min = N/3) with an input larger than ChunkSizeLimit, so that an accepted spec whose
+// chunker cannot cut shows as a chunk over the limit.
+
+var specGrid = kit.Spec[Case]{
+	Prop: "C06", Name: "rabin-boundary",
+	Rule: "exhaustive grid: rabin-N for N in 0..64 and rabin-min-avg-max with min in 14..17 x {const, random} input of ChunkSizeLimit+1 bytes x {unfragmented, 4096-byte reads}; same oracle as main; non-trivial = accepted spec (>= 3 chunks)",
+	Run:  runGrid,
+}
+
+func runGrid(c Case) kit.Result {
+	r := run(c)
+	if r.Err == nil && !r.NonTrivial {
+		for _, cl := range r.Classes {
+			if cl == "chunks:10+" || cl == "chunks:3-9" {
+				r.NonTrivial = true
+			}
+		}
+	}
+	return r
+}
+
+func TestPropRabinBoundary(t *testing.T) {
+	if kit.Shard() != "0" {
+		t.Skip("exhaustive grid runs in shard 0 only")
+	}
+	t.Run("replay", func(t *testing.T) { kit.Replay(t, specGrid) })
+	t.Run("findings", func(t *testing.T) { kit.RunFindings(t, specGrid) })
+	t.Run("grid", func(t *testing.T) {
+		kit.Exhaustive(t, specGrid, func(yield func(Case) bool) {
+			var specs []string
+			for n := 0; n <= 64; n++ {
+				specs = append(specs, fmt.Sprintf("rabin-%d", n))
+			}
+			for mn := 14; mn <= 17; mn++ {
+				specs = append(specs, fmt.Sprintf("rabin-%d-%d-%d", mn, mn+1, mn+2), fmt.Sprintf("rabin-%d-64-128", mn))
+			}
+			n := chunk.ChunkSizeLimit + 1
+			for i, s := range specs {
+				d := kit.DataSpec{Kind: "const", Len: n, Seed: 1}
+				if i%2 == 1 {
+					d = kit.DataSpec{Kind: "random", Len: n, Seed: uint64(i)}
+				}
+				if !yield(Case{Spec: s, Data: d, Plan2: []int{4096}}) {
+					return
+				}
+			}
+		})
+	})
+}
